@@ -517,7 +517,7 @@ func (r *Run) oracleC06() {
 					}
 				}
 			}
-			if keep && hasLast && ser != last+1 && r.sure(r.installs[idx-1].Step) {
+			if keep && hasLast && ser != last+1 && (idx == 0 || r.sure(r.installs[idx-1].Step)) {
 				r.fail("C06.skip", "handle %d received serial %d right after serial %d although callbacks kept up", h.id, ser, last)
 			}
 			if h.unregOK != 0 && cb.Enter >= h.unregOK {
@@ -701,9 +701,9 @@ func (r *Run) oracleC09() {
 			r.probe("enable-context-expired")
 			continue
 		}
-		if indeterminateFrom != 0 && op.Invoke >= indeterminateFrom {
-			continue
-		}
+		// after an abandoned call it is unknown whether verification is already
+		// on; what a call returns must still fit its own window
+		indeterminate := indeterminateFrom != 0 && op.Invoke >= indeterminateFrom
 		lo, hi := r.currentAt(op.Invoke), r.currentAt(op.Return)
 		if lo < 0 {
 			lo = 0
@@ -729,7 +729,7 @@ func (r *Run) oracleC09() {
 			if !in.Valid {
 				r.fail("C09.atomic-switch", "%s op %d: EnableVerification succeeded on a config that does not verify (serial %d)", op.Client, op.Idx, in.Serial)
 			}
-			if op.Return <= firstOK || firstOK == 0 {
+			if (op.Return <= firstOK || firstOK == 0) && !indeterminate {
 				// the call that switched verification on must have verified exactly this config
 				found := false
 				for _, v := range r.verifies {
